@@ -81,6 +81,8 @@ pub struct MemOp {
     /// operands in the order of the driver's notation; `None` = a literal
     /// (for `cs`: `[ctx, return pointer, args…]`, `None` = absent)
     pub operands: Vec<Option<String>>,
+    /// for `cs`: the name of the called item
+    pub callee: Option<String>,
 }
 
 /// One lowered item (function, filtermap, constant initialiser, generated
@@ -88,6 +90,9 @@ pub struct MemOp {
 #[derive(Clone, Debug, PartialEq, Eq)]
 pub struct MemFn {
     pub name: String,
+    /// the variables that receive the arguments of a `Call`, in the order of
+    /// its `args`, then the return pointer variable (when there is one)
+    pub params: Vec<String>,
     pub ops: Vec<MemOp>,
 }
 
@@ -111,6 +116,7 @@ fn mem_op(i: &crate::lir::Instruction) -> MemOp {
         op,
         to: to.map(mem_var),
         operands,
+        callee: None,
     };
     match i {
         Jump(_) | Switch { .. } => m("ct", None, vec![]),
@@ -119,13 +125,15 @@ fn mem_op(i: &crate::lir::Instruction) -> MemOp {
         FunctionAddress { to, .. } => m("rt", Some(to), vec![]),
         InitString { to, .. } => m("rt", Some(to), vec![]),
         Initialize { to, .. } => m("rt", Some(to), vec![]),
-        Call { to, ctx, args, return_ptr, .. } => {
+        Call { to, ctx, args, return_ptr, func } => {
             let mut ops = vec![
                 ctx.as_ref().and_then(mem_operand),
                 return_ptr.as_ref().map(mem_var),
             ];
             ops.extend(args.iter().map(mem_operand));
-            m("cs", to.as_ref().map(|t| &t.0), ops)
+            let mut op = m("cs", to.as_ref().map(|t| &t.0), ops);
+            op.callee = Some(func.as_str().to_string());
+            op
         }
         CallRuntime { args, .. } => m("rt", None, args.iter().map(mem_operand).collect()),
         Return(v) => m("re", None, vec![v.as_ref().and_then(mem_operand)]),
@@ -153,6 +161,28 @@ pub(crate) fn mem_fns(lir: &crate::lir::Lir) -> Vec<MemFn> {
         .iter()
         .map(|item| MemFn {
             name: item.name.as_str().to_string(),
+            params: match &item.kind {
+                crate::lir::ItemKind::Function { ir_signature, .. } => ir_signature
+                    .parameters
+                    .iter()
+                    .map(|(ident, _)| {
+                        mem_var(&crate::lir::Var {
+                            scope: item.scope,
+                            kind: crate::lir::VarKind::Explicit(*ident),
+                        })
+                    })
+                    .chain(ir_signature.return_ptr.then(|| {
+                        mem_var(&crate::lir::Var {
+                            scope: item.scope,
+                            kind: crate::lir::VarKind::Return,
+                        })
+                    }))
+                    .collect(),
+                crate::lir::ItemKind::Constant { .. } => vec![mem_var(&crate::lir::Var {
+                    scope: item.scope,
+                    kind: crate::lir::VarKind::Return,
+                })],
+            },
             ops: item
                 .blocks
                 .iter()
